@@ -29,6 +29,24 @@ fn main() {
         }
     }
     writeln!(s, "];").unwrap();
+    // second pool: spans made through the explicit-parent arm of the macro (`parent: None`)
+    let xp_copies: usize = 20;
+    writeln!(s, "pub const XP_COPIES: usize = {xp_copies};").unwrap();
+    writeln!(s, "pub static POOL_XP: &[Cs] = &[").unwrap();
+    for (li, l) in levels.iter().enumerate() {
+        for (ti, t) in targets.iter().enumerate() {
+            for _c in 0..xp_copies {
+                writeln!(
+                    s,
+                    "Cs {{ idx: {idx}, level: {lv}, target: {ti}, kind: Kind::Span, emit: |id: u64| {{ Emitted::Span(tracing::span!(target: \"{t}\", parent: None, tracing::Level::{l}, \"sp\", id)) }} }},",
+                    lv = li + 1
+                )
+                .unwrap();
+                idx += 1;
+            }
+        }
+    }
+    writeln!(s, "];").unwrap();
     let out = std::path::PathBuf::from(std::env::var("OUT_DIR").unwrap()).join("pool.rs");
     std::fs::write(out, s).unwrap();
     println!("cargo:rerun-if-changed=build.rs");
